@@ -139,4 +139,13 @@ CLAIMS["C19"] = dict(
     note=(TRUST + "Not decided: line-break placement of base64_encode, values of the pure helpers (trim, pad, replace, erase_all, contains, starts/ends_with, levenshtein, to_lower/upper), join/split round trip beyond the scan-window conditions."),
 )
 
+CLAIMS["C14"] = dict(
+    level="other",
+    technique="static analysis: per-path linear effect summaries of the chunking loops (conserved quantity with guard-equality substitution), threshold/byte-order relations of finalize(), constant tables recomputed from their defining formulas, truth tables / GF(2) basis evaluation of the extracted word functions, switch-table and shift-width rules for the SipHash tail",
+    text=("PROCESS-CONSERVE, DIRECT-ONLY-EMPTY, COPY-BOUND, FLUSH-RESET for the four process() loops (independence of the digest from the chunking is exactly the conservation "
+          "of length_ + 8 curlen_ + 8 size on every path); FINAL-THRESHOLDS incl. byte order of length and state stores; HEX-FRONTENDS; CONST-TABLES (SHA-2 K/IV from roots of "
+          "primes, MD5 K from sin, schedules); BOOLFN-TABLES; ROT-SETS; SIP-TAIL for both SipHash implementations."),
+    note=(TRUST + "Not decided: the compression rounds' dataflow (covered by the suite's vectors: any slip avalanches), SSE2 == portable SipHash beyond the tail assembly, 32-bit size parameter overflow for messages >= 4 GiB."),
+)
+
 NOT_APPLICABLE = {}
